@@ -134,6 +134,11 @@ example : (run (fun p v => p * 31 + v) init
       (fun r => (iter r.1, r.2.getLast?))
     = some ([(5, 1551), (11, 110), (13, 130)], some (.entries [(6, 60), (10, 100)])) := by decide
 
+/-- hypotheses of `pnmap_get_after_insert` / `pnmap_remove_range_exact` / `pnmap_iter_exact` are
+    satisfiable (and every state reached by a valid history satisfies `Inv`, by `pnmap_refines_map`) -/
+example : Inv init ∧ pre init (.insert 5 1) = true ∧ pre init (.removeRange 2 9) = true :=
+  ⟨inv_init, by decide, by decide⟩
+
 /-- Without the precondition the code panics (debug assertion): inserting a packet number that is
     not above the current end. This is why the refinement carries `pre`. -/
 theorem pnmap_insert_not_monotone_panics :
